@@ -257,6 +257,7 @@ class Guards:
         for n in fn.walk():
             for d, _ in written_decls(n):
                 assigned.add(d)
+        self._assigned_anywhere = assigned
         for n in fn.walk():
             if n.get("k") == "VarDecl" and n.get("c") and n.get("d") not in assigned and \
                     (n.get("ct") or n.get("t") or "").replace("const ", "") in ("bool", "_Bool"):
@@ -327,7 +328,23 @@ class Guards:
             if f[0] == "T":
                 a = strip_all(f[1])
                 if a is not None and a.get("k") == "DeclRefExpr" and a.get("d") in self.bool_defs:
-                    out.extend(self._expand_aliases(list(atomise(self.bool_defs[a["d"]], f[2])), depth + 1))
+                    for nf in self._expand_aliases(list(atomise(self.bool_defs[a["d"]], f[2])), depth + 1):
+                        # the bool recorded the outcome when it was initialised; it still says something about the
+                        # *current* values only if nothing it mentions has been written since.  Outcomes of calls
+                        # ("that call succeeded") are kept regardless: rules read them as events, not as state.
+                        nodes = [nf[1]] if nf[0] in ("T", "S") else ([nf[1], nf[3]] if nf[0] == "C" else [])
+                        stale = False
+                        if nf[0] != "NAND":
+                            for nn in nodes:
+                                sn = strip_all(nn)
+                                if nf[0] == "T" and sn is not None and sn.get("k") in ("CallExpr", "CXXMemberCallExpr") \
+                                        and sn.get("fn") and not (sn.get("k") == "CXXMemberCallExpr" and
+                                                                  (strip(sn["c"][0]) or {}).get("n") in ("size", "empty", "back", "front", "at")):
+                                    continue
+                                if decl_ids(nn) & self._assigned_anywhere:
+                                    stale = True
+                        if not stale:
+                            out.append(nf)
                 # a predicate method of the same object whose whole body is `return <expr over members>;`
                 # says what its expression says (is_formatted() <=> take_ != 0)
                 body = self._predicate_body(a)
@@ -537,6 +554,10 @@ def bool_atom(n):
             callee = strip(n["c"][0])
             nm = callee.get("n", "") if callee else ""
             if nm in ("has_value", "operator bool", "good") and callee.get("c"):
+                n = callee["c"][0]
+                continue
+            if nm == "flush" and callee.get("c") and len(n.get("c", [])) == 1:
+                # os.flush() returns os itself: a state test on the result is a test of the stream
                 n = callee["c"][0]
                 continue
             # NB: bad() is not the negation of good(): failbit alone leaves bad() false
